@@ -479,9 +479,134 @@ def simfs_fidelity():
         shutil.rmtree(top, ignore_errors=True)
 
 
+def _fs_scenario():
+    """The same script of file-system calls, executed once on SimFS (inside a
+    window) and once on the real kernel; returns the list of outcomes."""
+    import errno
+    import glob
+    import os
+    import tempfile
+    from pathlib import Path
+
+    out = []
+
+    def rec(name, fn):
+        try:
+            v = fn()
+            out.append((name, "ok", v))
+        except OSError as e:
+            out.append((name, type(e).__name__, errno.errorcode.get(e.errno)))
+
+    def w(path, mode, text):
+        with open(path, mode) as f:
+            f.write(text)
+        return True
+
+    rec("append", lambda: (w("out/a.txt", "w", "one\n"), w("out/a.txt", "a", "two\n"), open("out/a.txt").read())[2])
+    rec("excl_existing", lambda: w("out/a.txt", "x", "z"))
+    rec("excl_new", lambda: (w("out/b.txt", "x", "z"), open("out/b.txt").read())[1])
+    rec("replace", lambda: (w("out/t.tmp", "w", "new"), os.replace("out/t.tmp", "out/a.txt"), open("out/a.txt").read(), os.path.exists("out/t.tmp"))[2:])
+    rec("rename_missing", lambda: os.rename("out/none", "out/x"))
+    rec("rename_onto_dir", lambda: os.rename("out/a.txt", "sub"))
+    rec("mkdir_existing", lambda: os.mkdir("out"))
+    rec("makedirs_exist_ok", lambda: (os.makedirs("out/deep/er", exist_ok=True), os.makedirs("out/deep/er", exist_ok=True), os.path.isdir("out/deep/er"))[2])
+    rec("makedirs_over_file", lambda: os.makedirs("a.bitproto/x", exist_ok=True))
+    rec("unlink_missing", lambda: os.unlink("out/none"))
+    rec("unlink_dir", lambda: os.unlink("sub"))
+    rec("rmdir_nonempty", lambda: os.rmdir("out"))
+    rec("listdir", lambda: sorted(os.listdir(".")))
+    rec("listdir_file", lambda: os.listdir("a.bitproto"))
+    rec("scandir", lambda: sorted((e.name, e.is_dir(), e.is_file(), e.is_symlink()) for e in os.scandir(".")))
+    rec("glob", lambda: sorted(glob.glob("*.bitproto")))
+    rec("getsize", lambda: os.path.getsize("a.bitproto"))
+    rec("exists_variants", lambda: (os.path.exists("a_link"), os.path.exists("dangling"), os.path.lexists("dangling"), os.path.islink("a_link"), os.path.isfile("a_link"), os.path.isdir("/w/ln" if os.getcwd().startswith("/w") else "../ln")))
+    rec("realpath_eq", lambda: os.path.realpath("a_link") == os.path.realpath("a.bitproto"))
+    rec("realpath_hard", lambda: os.path.realpath("a_hard") == os.path.realpath("a.bitproto"))
+    rec("stat_ino_eq", lambda: (os.stat("a_hard").st_ino == os.stat("a.bitproto").st_ino, os.stat("a_link").st_ino == os.stat("a.bitproto").st_ino, os.lstat("a_link").st_ino == os.stat("a.bitproto").st_ino))
+    rec("mtime_order", lambda: (w("out/m1", "w", "1"), w("out/m2", "w", "2"), os.path.getmtime("out/m2") >= os.path.getmtime("out/m1"))[2])
+    rec("pathlib", lambda: (Path("out/p.txt").write_text("pp"), Path("out/p.txt").read_text(), Path("out").is_dir(), Path("nope").exists())[1:])
+    rec("pathlib_missing", lambda: Path("nope/x").read_text())
+
+    def mkst():
+        fd, name = tempfile.mkstemp(dir="out", suffix=".tmp")
+        with os.fdopen(fd, "w") as f:
+            f.write("tmp")
+            f.flush()
+            os.fsync(f.fileno())
+        os.replace(name, "out/final")
+        return open("out/final").read(), [n for n in os.listdir("out") if n.endswith(".tmp")]
+
+    rec("mkstemp_fsync_replace", mkst)
+
+    def lowlevel():
+        fd = os.open("out/low", os.O_WRONLY | os.O_CREAT | os.O_TRUNC, 0o644)
+        os.write(fd, b"abc")
+        os.close(fd)
+        fd = os.open("out/low", os.O_RDONLY)
+        d = os.read(fd, 10)
+        os.close(fd)
+        return d.decode()
+
+    rec("os_open_write_read", lowlevel)
+    rec("os_open_excl", lambda: os.open("out/low", os.O_WRONLY | os.O_CREAT | os.O_EXCL))
+    rec("os_open_missing", lambda: os.open("out/none2", os.O_WRONLY))
+    rec("abspath_norm", lambda: os.path.abspath("sub/../a.bitproto").endswith("/p/a.bitproto"))
+    rec("chdir_file", lambda: os.chdir("a.bitproto"))
+    rec("chdir_missing", lambda: os.chdir("nope"))
+    rec("utime", lambda: (os.utime("a.bitproto", (5, 5)), int(os.path.getmtime("a.bitproto")))[1])
+    return out
+
+
+def simfs_fidelity2():
+    import shutil
+    import tempfile
+
+    from .seams import Tripwires, Window
+    from .simfs import SimFS
+
+    def build_real(real):
+        os.makedirs(os.path.join(real, "p", "out"))
+        os.makedirs(os.path.join(real, "p", "sub"))
+        with open(os.path.join(real, "p", "a.bitproto"), "w") as f:
+            f.write("proto a\n")
+        os.symlink("a.bitproto", os.path.join(real, "p", "a_link"))
+        os.link(os.path.join(real, "p", "a.bitproto"), os.path.join(real, "p", "a_hard"))
+        os.symlink(os.path.join(real, "p"), os.path.join(real, "ln"))
+        os.symlink("nowhere", os.path.join(real, "p", "dangling"))
+
+    fs = SimFS()
+    fs.h_mkdir("/w/p/out")
+    fs.h_mkdir("/w/p/sub")
+    fs.h_write("/w/p/a.bitproto", "proto a\n")
+    fs.h_symlink("a.bitproto", "/w/p/a_link")
+    fs.h_link("/w/p/a.bitproto", "/w/p/a_hard")
+    fs.h_symlink("/w/p", "/w/ln")
+    fs.h_symlink("nowhere", "/w/p/dangling")
+    fs.h_chdir("/w/p")
+    fs.begin_op({})
+    tw = Tripwires()
+    with Window(fs, tw):
+        sim = _fs_scenario()
+    top = tempfile.mkdtemp(prefix="verif-fid2-")
+    cwd = os.getcwd()
+    try:
+        real = os.path.join(top, "w")
+        build_real(real)
+        os.chdir(os.path.join(real, "p"))
+        realres = _fs_scenario()
+    finally:
+        os.chdir(cwd)
+        shutil.rmtree(top, ignore_errors=True)
+    bad = [(a, b) for a, b in zip(sim, realres) if a != b]
+    if bad or len(sim) != len(realres):
+        raise runner.HarnessFailure("SimFS fidelity self-test (scenario) failed: %r" % (bad[:4],))
+    return len(sim)
+
+
 def selftest(prop: str, tier: str, seeds, jobs: int) -> dict:
     n = simfs_fidelity()
-    return {"simfs_fidelity_cases": n}
+    m = simfs_fidelity2()
+    return {"simfs_fidelity_cases": n + m}
 
 
 def evidence(prop, tier, base_seed, done, selftest_info, wall, t_runs, nviol, known_sigs, jobs):
